@@ -349,9 +349,37 @@ class Effects(object):
             elif owner is not None and f.name.startswith('p_') and i == 1 and self.grammar is not None \
                     and (f.name in self.grammar.action_funcs or f.name == 'p_error'):
                 out.append(_PSym(self, m, f))
+            elif i == 1 and self.grammar is not None and self._wraps_actions(key):
+                # the wrapper a decorator puts in the place of grammar actions: its second parameter is the production object
+                ps_ = _PSym(self, m, f)
+                ps_.funcnames = self._wraps_actions(key)
+                out.append(ps_)
             else:
                 out.append(HOST)
         return out
+
+
+def _effects_wraps_actions(self, key):
+    """Names of the grammar actions whose decorator is the (outermost) function this nested function lives in; () otherwise."""
+    cache = self.__dict__.setdefault('_wraps_cache', {})
+    if key in cache:
+        return cache[key]
+    out = ()
+    if '.<locals>.' in key[1] and self.grammar is not None:
+        outer = key[1].split('.<locals>.')[0]
+        names = []
+        for fname, (am, af) in self.grammar.action_funcs.items():
+            for d in getattr(af, 'decorator_list', []):
+                target = d.func if isinstance(d, ast.Call) else d
+                r = self.model.resolve_attr_chain(am, target) if isinstance(target, (ast.Name, ast.Attribute)) else None
+                if r is not None and r[0] == 'func' and r[1].name == key[0] and r[1].qualname_of(r[2]) == outer:
+                    names.append(fname)
+        out = tuple(sorted(names))
+    cache[key] = out
+    return out
+
+
+Effects._wraps_actions = _effects_wraps_actions
 
 
 class _SelfOwn(Own):
@@ -369,7 +397,7 @@ class _SelfOwn(Own):
 
 class _PSym(Own):
     """The YaccProduction parameter of a grammar action: p[k] has the ownership of the k-th symbol."""
-    __slots__ = ('eff', 'module', 'func', 'prod')
+    __slots__ = ('eff', 'module', 'func', 'prod', 'funcnames')
 
     def __init__(self, eff, module, func, prod=None):
         Own.__init__(self, ['fresh'])
@@ -377,6 +405,7 @@ class _PSym(Own):
         self.module = module
         self.func = func
         self.prod = prod        # a specific production alternative (then len(p) is known), or None = all of them
+        self.funcnames = None   # names of the grammar actions this (wrapper) function stands for, when it is not an action itself
 
     def key(self, depth=0):
         return (('psym', self.func.name, self.prod.index if self.prod is not None else None), None)
@@ -392,7 +421,7 @@ class _PSym(Own):
         for p in g.productions:
             if self.prod is not None and p is not self.prod:
                 continue
-            if p.funcname == self.func.name:
+            if p.funcname == getattr(self.func, 'name', None) or (self.funcnames and p.funcname in self.funcnames):
                 if k is None:
                     for s in p.syms:
                         owns.append(self.eff.symbol_own(s))
@@ -432,6 +461,13 @@ class _Interp(object):
         self.closure_env = None
 
     def _default_own(self, func, i, n):
+        if i == 1 and self.eff.grammar is not None and not isinstance(func, ast.Lambda):
+            names = self.eff._wraps_actions(self.key)
+            if names:
+                # the wrapper a decorator puts in the place of grammar actions: its second parameter is the production object
+                ps_ = _PSym(self.eff, self.m, func)
+                ps_.funcnames = names
+                return ps_
         defaults = func.args.defaults
         k = i - (n - len(defaults))
         if 0 <= k < len(defaults):
